@@ -25,6 +25,8 @@ var c12Routes = []string{
 	"/d/{x}/", "/d/", "/./{x}", "/{x}/../{y}", "/d/./e/{x}/..", "/d/{x}/?",
 	// an optional last segment after binds that carry annotations (expression, capture limit)
 	"/t/{name}/{withOptional}", "/u/{y: /[0-9]+/}/?e", "/f/{m: **, capture: 3}/r/?d", "/{y: /a+/, z: /b+/}/?{o}", "/u/{y: /[0-9]+/}/?{o: /e+/}",
+	// binds that carry the names the syntax uses for its annotations
+	"/f/{capture: **}", "/g/{capture: **, capture: 2}/?raw", "/h/{capture}/{y}", "/i/{capture: /[0-9]+/}/r",
 }
 
 var c12Values = []string{"\x00absent", "v", "", "{x}", "{y}", "{self}", "a/b", "}", "{", "%2F", "x y", "v/y/v", "w?o", "/?"}
